@@ -38,6 +38,7 @@ def run(ctx) -> None:
     ctx.rule("SEQ", "verify() passes through the collision checks; every our_type is checked", floor=12)
     ctx.rule("COVER", "each verifier names every entity kind (types, enum literals, properties, methods) with the target's naming functions", floor=24)
     ctx.rule("DEFS", "schema targets detect duplicate definitions", floor=3)
+    ctx.rule("SCOPE", "no member/literal is skipped by the verifiers, and names that share a scope in the target are looked up in one table", floor=24)
     for t in SDK_TARGETS:
         m = p.module(f"{t}.lib._generate_types")
         intra = p.func(f"{t}.lib._generate_types:_verify_intra_structure_collisions")
@@ -80,6 +81,7 @@ def run(ctx) -> None:
                 ctx.fail("COVER", intra, intra.node,
                          f"the {t} collision verifiers never convert a {kind} name ({'/'.join(fns)}): two {kind} names that become equal in {t} are generated without a collision error",
                          construct=f"{t}: {kind} names not checked")
+        _check_scopes(ctx, t, intra, inter)
     # schema targets
     js = p.func("jsonschema.main:generate")
     upd = [c for c in find_calls(js.node, lambda c: isinstance(c.func, ast.Attribute) and c.func.attr in ("update", "update_for") and dotted_of(c.func.value) == "definitions")]
@@ -107,3 +109,75 @@ def run(ctx) -> None:
         ctx.ok("DEFS", xg, xg.node, what="xsd._generate tests new definitions against observed_definitions")
     else:
         ctx.fail("DEFS", xg, xg.node, "xsd._generate no longer detects duplicate definitions", construct="xsd observed_definitions")
+
+
+def _kind_of(fn_name: str):
+    for kind, fns in KINDS.items():
+        if fn_name in fns:
+            return kind
+    return None
+
+
+def _check_scopes(ctx, t: str, intra, inter) -> None:
+    """(a) the loops over literals / properties / methods have no ``continue``/``break``: every member takes part;
+    (b) within one verifier, the names of kinds that live in one scope of the target are registered in one table:
+    all kinds in the inter-structure verifier (package/namespace scope), properties and methods in the intra one."""
+    for f in (intra, inter):
+        for loop in [n for n in ast.walk(f.node) if isinstance(n, ast.For)]:
+            it = dotted_of(loop.iter) or ""
+            if it.split(".")[-1] not in ("literals", "properties", "methods"):
+                continue
+            skips = [x for x in ast.walk(loop) if isinstance(x, (ast.Continue, ast.Break))]
+            what = f"{t}: every element of {it} takes part in the collision check"
+            if skips:
+                ctx.fail("SCOPE", f, skips[0], f"the loop over `{it}` skips some elements (`{short(skips[0])}` at line {skips[0].lineno}): a collision involving a skipped (e.g. inherited) member is not reported although the member is generated", construct=what)
+            else:
+                ctx.ok("SCOPE", f, loop, what=what)
+        # name variable -> kind, by the latest assignment before the use (variables are reused across arms)
+        assigns = []  # (lineno, var, kind)
+        for n in ast.walk(f.node):
+            if isinstance(n, ast.Assign) and len(n.targets) == 1 and isinstance(n.targets[0], ast.Name) and isinstance(n.value, ast.Call):
+                d = dotted_of(n.value.func) or ""
+                k = _kind_of(d.split(".")[-1]) if (d.startswith(f"{t}_naming.") or d.startswith("naming.")) else None
+                assigns.append((n.lineno, n.targets[0].id, k))
+            if isinstance(n, ast.For) and isinstance(n.target, ast.Name) and dotted_of(n.iter) == "names":
+                assigns.append((n.lineno, n.target.id, "type"))
+        assigns.sort()
+
+        def kind_at(var: str, line: int):
+            k = None
+            for ln, v, kk in assigns:
+                if v == var and ln <= line:
+                    k = kk
+            return k
+
+        tables = {}
+        for n in ast.walk(f.node):
+            tbl = var = None
+            if isinstance(n, ast.Subscript) and isinstance(n.value, ast.Name) and isinstance(n.slice, ast.Name) and isinstance(n.ctx, ast.Store):
+                tbl, var = n.value.id, n.slice.id
+            elif isinstance(n, ast.Compare) and len(n.ops) == 1 and isinstance(n.ops[0], (ast.In, ast.NotIn)) and isinstance(n.left, ast.Name) and isinstance(n.comparators[0], ast.Name):
+                tbl, var = n.comparators[0].id, n.left.id
+            elif isinstance(n, ast.Call) and isinstance(n.func, ast.Attribute) and n.func.attr == "get" and isinstance(n.func.value, ast.Name) and n.args and isinstance(n.args[0], ast.Name):
+                tbl, var = n.func.value.id, n.args[0].id
+            if var is not None:
+                k = kind_at(var, n.lineno)
+                if k is not None:
+                    tables.setdefault(k, set()).add(tbl)
+        if f is inter:
+            groups = [sorted(tables)]
+            scope = "package/namespace scope"
+        else:
+            groups = [[k for k in ("property", "method") if k in tables]]
+            scope = "class scope"
+        for g in groups:
+            if not g:
+                continue
+            used = set()
+            for k in g:
+                used |= tables[k]
+            what = f"{t}: {f.name}: {', '.join(g)} names share one table ({scope})"
+            if len(used) == 1:
+                ctx.ok("SCOPE", f, f.node, what=what)
+            else:
+                ctx.fail("SCOPE", f, f.node, f"the names of {g} live in one {scope} of the {t} code, but the verifier registers them in different tables {sorted(used)}: a {g[0]} colliding with a {g[-1]} is not reported", construct=what)
